@@ -6,12 +6,17 @@ Engine D (bounded-exhaustive enumeration on the real classes)
             public API (inspect / flag_manually / reset_without_confirmation).
   D-treg  : RegulatoryTCell.evaluate on all (threat level x action) responses x rule sets x tolerance records.
   D-train : ImmuneSystem.train_agent + inspect on every observation window over a small observation alphabet.
+Engine A on a bare TCell ("T", explicit-state BFS run to its fixpoint)
+  every history of inspect(one fingerprint per reference class) / flag_manually / reset / reset_without_confirmation
+  per profile x thresholds: both resets are applied in every reachable watcher state (after SUSPICIOUS, after
+  CONFIRMED by streak / canary / flag, after CRITICAL, while flagged, on the way to anergy and beyond).
 Engine A (explicit-state BFS, canonical-state dedup, virtual clock)
   ImmuneSystem(min_training_samples=2, min_observations=2, window_size=2) histories over record_observation /
   record_canary_result / train_agent / inspect / flag_agent / tcell.reset / tcell.reset_without_confirmation /
   mark_agent_updated / clock advance / tolerance-rule toggles.
 
-The oracle is a reference two-signal rule written from the property text.  It reads only public values: the
+The oracle is a reference two-signal rule written from the property text.  Its anomaly streak and manual flag are
+tracked from the history of public calls alone (never from the watcher's own counters).  It reads only public values: the
 profile's bounds, the fingerprint handed to / produced for the inspection, the watcher's public `is_anergic`
 and configured thresholds, and the returned ImmuneResponse / SuppressionResult.  Every clause is one-directional:
     (a) CONFIRMED/CRITICAL or isolate/shutdown  =>  baseline violated AND (canary failed OR anomaly streak >=
@@ -112,12 +117,16 @@ def position(profile, fp):
 
 
 class Ref:
-    """What the statement lets the watcher know: anomaly streak, manual flag, remembered threats."""
+    """What the statement lets the watcher know, tracked from the history of public calls and reference-side
+    observations only: anomaly streak (consecutive out-of-baseline inspections since the last reset of either kind
+    or in-baseline inspection), manual flag, remembered threats.  `has_memory=False` is a bare TCell: no immune
+    memory stands behind it, so "a remembered threat" can never be its second signal."""
 
-    def __init__(self):
+    def __init__(self, has_memory=True):
         self.streak = 0
         self.flag = False
         self.mem = set()
+        self.has_memory = has_memory
 
 
 def silent(resp):
@@ -137,7 +146,7 @@ def judged_inspect(ref, profile, fp, rep_threshold, anergic, call, just_trained=
         ref.streak += 1
     else:
         ref.streak = 0
-    remembered = (fp.vocabulary_hash, fp.structure_hash) in ref.mem
+    remembered = ref.has_memory and (fp.vocabulary_hash, fp.structure_hash) in ref.mem
     second = bool(c_out or c_bd or ref.streak >= rep_threshold or ref.flag or remembered)
     resp = call()
     sig = getattr(resp.signal2, "value", str(resp.signal2))
@@ -163,7 +172,7 @@ def judged_inspect(ref, profile, fp, rep_threshold, anergic, call, just_trained=
         v.append((f"critical-softened:{act}", f"CRITICAL response must keep shutdown; {ctx_txt}"))
     if resp.threat_level == CONF and resp.action in (ResponseAction.IGNORE,):
         v.append((f"confirmed-lowered-more-than-one-step:{act}", f"CONFIRMED (isolate) may drop to monitor only; {ctx_txt}"))
-    if escalated(resp):
+    if escalated(resp) and ref.has_memory:
         ref.mem.add((fp.vocabulary_hash, fp.structure_hash))
     info = (lvl, act, getattr(resp.signal1, "value", "?"), sig, len(resp.violations), bool(resp.is_anergic))
     return resp, v, (info, out, bd, second)
@@ -242,7 +251,7 @@ def tcell_case(profile, thr, anergy, streak, flag, fpv):
     """One D-tcell case; returns (viols, info of the final inspection, n inspections)."""
     rt, at = thr
     tc = TCell(profile=profile, repeated_anomaly_threshold=rt, anergy_threshold=at)
-    ref = Ref()
+    ref = Ref(has_memory=False)
     lo, hi = profile.response_time_bounds
     mid = [(a + b) / 2 for a, b in (profile.output_length_bounds, profile.response_time_bounds, profile.confidence_bounds)]
     vhash = sorted(profile.valid_vocabulary_hashes)[0]
@@ -317,6 +326,106 @@ def _tcell_work(job):
                         e[0] += 1
     return dict(cases=cases, inspections=inspections, nontrivial=nontrivial, boundary=boundary,
                 boundary_inside=boundary_inside, outcomes=outcomes, classes=classes, viols=viols)
+
+
+# ------------------------------------------------------------------------------------------------
+# T: every history of public calls on a bare TCell (engine A, run to its fixpoint)
+# ------------------------------------------------------------------------------------------------
+
+_FP_CLASSES = {}
+
+
+def fp_classes(pi, tier):
+    """One fingerprint per reference class of fp_space: (fields outside capped at 3, fields on a bound capped at 2,
+    canary absent / fine / on the minimum / below it / below 0.5).  The first of each class in enumeration order."""
+    key = (pi, tier)
+    if key not in _FP_CLASSES:
+        profile = mk_profile(PROFILE_SPECS[pi])
+        reps = {}
+        for fpv in fp_space(profile, tier):
+            out, bd, c_out, c_bd = position(profile, _pep(*fpv))
+            can = fpv[6]
+            cls = (min(out, 3), min(bd, 2), c_out, c_bd, can is None, can is not None and can < 0.5)
+            reps.setdefault(cls, fpv)
+        _FP_CLASSES[key] = [reps[c] for c in sorted(reps)]
+    return _FP_CLASSES[key]
+
+
+T_THRS = {"quick": [(3, 2), (2, 1)], "thorough": [(3, 2), (2, 1), (1, 1), (3, 5), (4, 3)]}
+
+
+class TState:
+    pass
+
+
+class TModel:
+    """Histories over inspect(fingerprint class) / flag_manually / reset / reset_without_confirmation on one TCell:
+    both resets (and the flag) are enabled in every state, so they are applied after a SUSPICIOUS answer, after a
+    CONFIRMED one by each kind of second signal, after CRITICAL, while flagged, and on the way to anergy.  The
+    reference streak / flag are updated from the calls alone; the canonical state (counters capped at the configured
+    thresholds) only decides which histories are merged and is validated differentially by the explorer."""
+
+    def __init__(self, tier):
+        self.tier = tier
+        self.npro = 2 if tier == "quick" else len(PROFILE_SPECS)
+
+    def roots(self):
+        return [[pi, rt, at] for pi in range(self.npro) for rt, at in T_THRS[self.tier]]
+
+    def build(self, root):
+        pi, rt, at = root
+        st = TState()
+        st.pi = pi
+        st.profile = mk_profile(PROFILE_SPECS[pi])
+        st.tc = TCell(profile=st.profile, repeated_anomaly_threshold=rt, anergy_threshold=at)
+        st.ref = Ref(has_memory=False)
+        st.last_obs = None
+        return st
+
+    def clone(self, st):
+        return copy.deepcopy(st)
+
+    def ops(self, st):
+        return [("inspect", fpv) for fpv in fp_classes(st.pi, self.tier)] + [("flag",), ("reset",), ("rwc",)]
+
+    def canon(self, st):
+        tc = st.tc
+        rt = tc.repeated_anomaly_threshold
+        return (min(tc.anomaly_count, rt), min(tc.anergy_count, tc.anergy_threshold), bool(tc.manual_flag),
+                tc.state.signal1.value, tc.state.signal2.value, min(st.ref.streak, rt), st.ref.flag)
+
+    def observe(self, st):
+        return st.last_obs
+
+    def step(self, st, op):
+        op = tuple(op)
+        tc, ref = st.tc, st.ref
+        kind = op[0]
+        st.last_obs = ("T", kind)
+        viols = []
+        try:
+            if kind == "inspect":
+                fp = _pep(*op[1])
+                _, viols, (info, out, bd, second) = judged_inspect(ref, st.profile, fp, tc.repeated_anomaly_threshold,
+                                                                   tc.is_anergic, lambda: tc.inspect(fp))
+                st.last_obs = ("T", "inspect") + info[:4] + (min(info[4], 3), info[5])
+            elif kind == "flag":
+                tc.flag_manually("operator")
+                ref.flag = True
+            elif kind == "reset":
+                tc.reset()
+                ref.flag = False
+                ref.streak = 0
+            elif kind == "rwc":
+                tc.reset_without_confirmation()
+                ref.streak = 0
+            else:
+                raise common.HarnessError(f"unknown op {op}")
+        except common.HarnessError:
+            raise
+        except Exception as e:  # noqa: BLE001
+            return [(f"raises:tcell.{kind}:{type(e).__name__}", f"{kind} raised {type(e).__name__}: {e}")]
+        return viols
 
 
 # ------------------------------------------------------------------------------------------------
@@ -535,6 +644,12 @@ ROOTS = {
     "near-anergy": TRAINED + [("obs", "slow")] + ALARM * 4,
     "anergic": TRAINED + [("obs", "slow")] + ALARM * 5,
     "stable": TRAINED + [("inspect",)] * 3,
+    # the watcher has just answered CONFIRMED / CRITICAL, once by each kind of second signal (streak, canary, flag):
+    # resets of either kind, new observations and retraining are explored from there
+    "confirmed-by-streak": TRAINED + [("obs", "slow")] + [("inspect",)] * 3,
+    "confirmed-by-canary": TRAINED + [("obs", "slow"), ("canary", 0), ("inspect",)],
+    "confirmed-by-flag": TRAINED + [("obs", "slow"), ("flag",), ("inspect",)],
+    "critical-by-flag": TRAINED + [("obs", "bad"), ("obs", "bad"), ("flag",), ("inspect",)],
     "remembered": TRAINED + [("obs", "slow"), ("flag",), ("inspect",), ("reset",)],
     # a threat is remembered under the trained hashes, then the watcher is desensitised by alarms under other hashes
     "remembered-anergic": TRAINED + [("obs", "slow"), ("flag",), ("inspect",), ("reset",), ("obs", "vocab"), ("obs", "vocab")] + ALARM * 5,
@@ -722,6 +837,14 @@ def run(ctx):
     ctx.sample({"engine": "D-tcell", "profile": PROFILE_SPECS[0], "thr": (3, 2), "anergy": 0, "streak": 2, "flag": 1,
                 "fp": fp_space(mk_profile(PROFILE_SPECS[0]), tier)[ctx.seed % 97]})
 
+    # ---- T (bare TCell histories, to the fixpoint)
+    tmodel = TModel(tier)
+    for pi in range(tmodel.npro):
+        fp_classes(pi, tier)            # computed once here, inherited by the forked workers
+    t = explore.explore(tmodel, ctx, 64, label="T", validate_canon=100 if tier == "quick" else 400)
+    if not t["fixpoint"]:
+        raise common.HarnessError(f"TCell history search did not close within depth 64: {t}")
+
     # ---- D-treg
     jobs = _treg_jobs(tier)
     res, order = _pmap(ctx, _treg_work, jobs)
@@ -756,22 +879,31 @@ def run(ctx):
     d_exec = ctx.stats["D-tcell.cases"] + ctx.stats["D-treg.cases"] + ctx.stats["D-train.cases"]
     d_eval = ctx.stats["D-tcell.inspections"] + ctx.stats["D-treg.cases"] + ctx.stats["D-train.positive"]
     ctx.coverage.update(
-        states=a["states"],
-        transitions=a["transitions"],
-        traces_validated_against_impl=a["transitions"] + d_exec,
-        evaluations=a["transitions"] + d_eval,
-        distinct_nontrivial=a["states"] + ctx.stats["D-tcell.nontrivial"] + ctx.stats["D-treg.changed"] + ctx.stats["D-train.profiles"],
+        states=a["states"] + t["states"],
+        transitions=a["transitions"] + t["transitions"],
+        traces_validated_against_impl=a["transitions"] + t["transitions"] + d_exec,
+        evaluations=a["transitions"] + t["transitions"] + d_eval,
+        distinct_nontrivial=a["states"] + t["states"] + ctx.stats["D-tcell.nontrivial"] + ctx.stats["D-treg.changed"] + ctx.stats["D-train.profiles"],
         rule="D-tcell: every fingerprint on the product of per-bound positions of each profile x anergy x streak x flag "
         "(all distinct by construction; non-trivial = a baseline violation or a second signal is present in the reference); "
         "D-treg: every level x action x rule set x record (non-trivial = the action was modified); D-train: every "
         "observation window (ordered for length 2-3; thorough adds multisets of length 4) x canary history (non-trivial = distinct "
-        "(window multiset, canaries) that trained POSITIVE); A: BFS over ImmuneSystem histories, distinct = canonical state",
+        "(window multiset, canaries) that trained POSITIVE); T: BFS to the fixpoint over all histories of inspect(one "
+        "fingerprint per reference class) / flag_manually / reset / reset_without_confirmation on a bare TCell per profile x "
+        "thresholds, distinct = canonical state; A: BFS over ImmuneSystem histories, distinct = canonical state",
         exhaustive=not a["capped"],
         depth_completed=a["depth_completed"],
         fixpoint=a["fixpoint"],
         a_roots=a["roots"],
         a_frontier_left=a["frontier_left"],
         a_canon_pairs_validated=ctx.stats["A.canon_pairs_validated"],
+        t_states=t["states"],
+        t_transitions=t["transitions"],
+        t_fixpoint=t["fixpoint"],
+        t_depth=t["depth_completed"],
+        t_roots=t["roots"],
+        t_fingerprint_classes=[len(fp_classes(pi, tier)) for pi in range(tmodel.npro)],
+        t_canon_pairs_validated=ctx.stats["T.canon_pairs_validated"],
         d_executions=d_exec,
         profiles=len(PROFILE_SPECS[:2] if tier == "quick" else PROFILE_SPECS),
         rule_sets=len(rule_sets(tier)),
@@ -779,7 +911,8 @@ def run(ctx):
     )
     if not a["fixpoint"]:
         ctx.coverage["caps_hit"] = (f"engine A is depth-bounded: depth {a['depth_completed']} completed from {a['roots']} roots, "
-                                    f"{a['frontier_left']} frontier states unexpanded (the D spaces are enumerated completely)")
+                                    f"{a['frontier_left']} frontier states unexpanded (the D spaces are enumerated completely, the bare-TCell "
+                                    f"history search T reached its fixpoint)")
     ctx.note(f"boundary fingerprints (a value exactly on a bound, nothing outside): {ctx.stats['D-tcell.boundary']} cases, "
              f"{ctx.stats['D-tcell.boundary_inside']} answered none — the code reads bounds inclusively; not judged either way")
     ctx.note("a canary accuracy below the trained minimum is at once a baseline violation and the second signal, so one "
@@ -791,7 +924,9 @@ def run(ctx):
         "finite moderate float fields only (NaN/inf fingerprints and observations are outside the explored alphabet)",
         "the fingerprint of the current window is taken from MHCDisplay.generate_peptide() (the library's own display)",
         "desensitised = the watcher's public is_anergic property; repeated anomaly = consecutive inspections whose "
-        "fingerprint violates the baseline >= the configured repeated_anomaly_threshold",
+        "fingerprint violates the baseline, counted from the calls alone since the last reset() / "
+        "reset_without_confirmation() / in-baseline inspection (/ successful retraining), >= the configured "
+        "repeated_anomaly_threshold; a bare TCell has no immune memory, so no remembered threat",
         "reference is permissive where the text is silent: a manual flag survives retraining and false-alarm resets, "
         "a remembered threat = same (vocabulary, structure) hashes as an earlier confirmed/critical report",
         "engine A: one agent, window_size=2, observation alphabet of 4-5 kinds, <=2 canary results, TCell default thresholds 3/5 "
@@ -801,6 +936,9 @@ def run(ctx):
 
 def replay(ctx, case):
     eng = case.get("engine", "A") if isinstance(case, dict) else "A"
+    if eng == "A" and len(case["root"]) == 3 and all(isinstance(x, int) for x in case["root"]):
+        # a bare-TCell history: root = (profile index, repeated_anomaly_threshold, anergy_threshold)
+        return explore.replay_case(TModel(ctx.tier), {"root": list(case["root"]), "hist": case["hist"], "op": case["op"]})
     if eng == "A":
         return explore.replay_case(AModel(ctx.tier), {"root": case["root"], "hist": case["hist"], "op": case["op"]})
     if eng == "D-tcell":
